@@ -94,28 +94,29 @@ def enforce_premise(arpa_bytes):
     return b"\n".join(lines), changed
 
 
-def lower_files(case_arpa, workdir, name, rng):
+def lower_files(case_arpa, workdir, name, rng, drop_unk=False):
     """Lower-order ARPA files of 'the same corpus': order k keeps the n-grams of orders <= k (same unigram order, so
     that word ids agree — LowerRestBuild passes the main model's ids), probabilities shifted so that rest != prob.
     Returns list of paths (order 1 … N-1) or None when <unk> is absent (LowerRestBuild sizes its unigram table by the
     file's count and would write out of bounds for a hallucinated <unk>)."""
     lines, secs = sections(case_arpa)
     N = max(secs)
-    uni_words = [t[1] for _, t in secs[1]]
-    if b"<unk>" not in uni_words and b"<UNK>" not in uni_words:
-        return None
-    if uni_words[0] not in (b"<unk>", b"<UNK>") and False:
-        return None
+    # drop_unk: the lower-order files do not list <unk> (LowerRestBuild then has to size its unigram table by the main
+    # vocabulary, not by the file's count: heap overflow on trees without repo_patches/63-fix-lower-rest-unk)
     paths = []
     for k in range(1, N):
         shift = Fraction(rng.randrange(0, 9), 8)
         out = [b"\\data\\"]
+        def keep(n, t):
+            return not (drop_unk and n == 1 and t[1] in (b"<unk>", b"<UNK>"))
         for n in range(1, k + 1):
-            out.append(b"ngram %d=%d" % (n, len(secs[n])))
+            out.append(b"ngram %d=%d" % (n, sum(1 for _, t in secs[n] if keep(n, t))))
         out.append(b"")
         for n in range(1, k + 1):
             out.append(b"\\%d-grams:" % n)
             for _, t in secs[n]:
+                if not keep(n, t):
+                    continue
                 try:
                     p = float(t[0])
                 except ValueError:
@@ -565,7 +566,11 @@ def left_stream(ctx, hexe, dexe, n_cases, quick):
         path = os.path.join(work, "c%d.arpa" % ci)
         with open(path, "wb") as f:
             f.write(arpa)
-        lower = lower_files(arpa, work, "c%d" % ci, ctx.rng) if ctx.rng.random() < 0.6 else None
+        has_unk = bool(re.search(rb"\t<(unk|UNK)>", arpa))
+        drop_unk = (not has_unk) or ctx.rng.random() < 0.3
+        lower = lower_files(arpa, work, "c%d" % ci, ctx.rng, drop_unk) if ctx.rng.random() < 0.6 else None
+        if lower:
+            ctx.hist("left.lower_files_list_unk", int(not drop_unk))
         classes = "PRLTAQB" if lower else "PRTAQB"
         ops = gen_ops(case, ctx.rng, quick)
         if not os.path.exists(hexe):
@@ -580,7 +585,11 @@ def left_stream(ctx, hexe, dexe, n_cases, quick):
                 "replay": "write arpa (and lower files) to disk; feed `arpa <file> mult=.. abits=.. classes=.. [lower=f1,f2,..]` "
                           "followed by the op line to the harness (harness/c08_left.cc) and to drv_C08"}
         if rc1 != 0 or rc2 != 0 or len(o1) != len(ops) + 1 or len(o2) != len(ops) + 1:
-            ctx.violation("left: harness or driver died (harness rc=%s, driver rc=%s)" % (rc1, rc2),
+            san = re.search(r"ERROR: (AddressSanitizer|UndefinedBehaviorSanitizer|LeakSanitizer)[^\n]*(?:\n[^\n]*){0,3}", e1 or "")
+            what = "left: harness or driver died (harness rc=%s, driver rc=%s)" % (rc1, rc2)
+            if san:
+                what = "left: sanitizer report while loading/scoring (%s)" % " / ".join(x.strip()[:160] for x in san.group(0).splitlines()[:3])
+            ctx.violation(what,
                           dict(base, ops=ops[:50], harness_stderr=e1[-3000:], driver_stderr=e2[-1500:]))
             found = True
             continue
